@@ -20,6 +20,7 @@ from vlib.core import Violation
 from vlib.refobs import RefObs, combine
 
 DUMMY = '###dummy_covobs###'
+ATOL = 1e-13     # absolute rounding floor relative to the largest magnitude that entered (see layout_of)
 
 
 def ref_number(x):
@@ -97,6 +98,23 @@ class Dense:
         sub2 = lambda a: a[ix]               # noqa: E731
         return Dense(sub2(self.v), {k: sub3(a) for k, a in self.d.items()}, {k: sub2(a) for k, a in self.mag.items()},
                      {k: sub3(a) for k, a in self.g.items()}, {k: sub2(a) for k, a in self.gmag.items()}, sub2(self.vmag), self.lay)
+
+
+def masked(A, mask):
+    """entries outside the 0/1 mask set to zero; the magnitudes (tolerance scale) are kept"""
+    mask = np.asarray(mask, dtype=float)
+    return Dense(A.v * mask, {k: x * mask[None] for k, x in A.d.items()}, A.mag, {k: x * mask[None] for k, x in A.g.items()},
+                 A.gmag, np.maximum(A.vmag, np.max(A.vmag, initial=0.0)), A.lay)
+
+
+def shift_diag(A, lam):
+    """A - lam*1 for a (1,1) Dense lam"""
+    n = A.shape[0]
+    eye = np.eye(n)
+    lin = lambda a, b: {q: a.get(q, 0.0) - b[q] * eye[None] for q in b} | {q: a[q] for q in a if q not in b}   # noqa: E731
+    mg = lambda a, b: {q: a.get(q, 0.0) + b[q] * eye for q in b} | {q: a[q] for q in a if q not in b}           # noqa: E731
+    return Dense(A.v - lam.v[0, 0] * eye, lin(A.d, lam.d), mg(A.mag, lam.mag), lin(A.g, lam.g), mg(A.gmag, lam.gmag),
+                 A.vmag + abs(lam.v[0, 0]) * eye, A.lay or lam.lay)
 
 
 def const(a, lay=None):
@@ -211,8 +229,14 @@ def det(A):
 # ------------------------------------------------------------------------------------------------------------------
 # RefObs <-> Dense
 
-def layout_of(car):
-    return {'cfgs': {n: sorted(car.d[n]) for n in sorted(car.d)}, 'covs': {k: v[0] for k, v in car.cg.items()}}
+def layout_of(car, refs=()):
+    """Union layout; with `refs` (all participating RefObs) also the rounding floors: no number of an identity can be
+    more accurate than ~1e-16 x condition number (< 1e3) x the largest magnitude that entered on that chain."""
+    lay = {'cfgs': {n: sorted(car.d[n]) for n in sorted(car.d)}, 'covs': {k: v[0] for k, v in car.cg.items()}}
+    lay['floor'] = {n: max([r.mag.get(n, 0.0) for r in refs] + [0.0]) for n in lay['cfgs']}
+    lay['gfloor'] = {k: max([r.cgmag.get(k, 0.0) for r in refs] + [0.0]) for k in lay['covs']}
+    lay['vfloor'] = max([abs(r.value) for r in refs] + [1.0])
+    return lay
 
 
 def densify(parts, car, lay=None):
@@ -262,25 +286,26 @@ def check_equal(X, Y, what, xname='result', yname='expected', rtol=1e-9, vtol=1e
     """X == Y as matrices of observables: values, every fluctuation, every covariance gradient."""
     if X.shape != Y.shape:
         raise Violation('%s: shape %r, expected %r' % (what, X.shape, Y.shape))
-    tol = vtol * np.maximum(np.maximum(X.vmag, Y.vmag), 1e-300)
+    lay = X.lay or Y.lay or {}
+    amp = max(1.0, float(np.max(np.maximum(X.vmag, Y.vmag), initial=0.0)))
+    tol = vtol * np.maximum(X.vmag, Y.vmag) + ATOL * lay.get('vfloor', 1.0) * amp
     bad = np.argwhere(~(np.abs(X.v - Y.v) <= tol))
     if len(bad):
         i, j = bad[0]
         raise Violation('%s: central value of entry (%d,%d): %s = %s, %s = %s' % (what, i, j, xname, _fmt(X.v[i, j]), yname, _fmt(Y.v[i, j])))
-    lay = X.lay or Y.lay
     for n in sorted(set(X.d) | set(Y.d)):
         a, b = X.d.get(n), Y.d.get(n)
         z = np.zeros_like(a if a is not None else b)
         a = z if a is None else a
         b = z if b is None else b
         m = X.mag.get(n, 0.0) + Y.mag.get(n, 0.0)
-        tol = rtol * m + 1e-300
+        tol = rtol * m + ATOL * lay.get('floor', {}).get(n, 0.0) * amp + 1e-300
         dev = np.abs(a - b)
         bad = np.argwhere(~(dev <= tol[None, :, :] if np.ndim(tol) else dev <= tol))
         if len(bad):
             k = int(np.argmax([dev[tuple(q)] for q in bad]))
             c, i, j = bad[k]
-            cfg = lay['cfgs'][n][c] if lay else c
+            cfg = lay['cfgs'][n][c] if lay.get('cfgs') else c
             raise Violation('%s: fluctuation of entry (%d,%d) on %s at configuration %s: %s = %s, %s = %s '
                             '(%d of %d numbers differ; magnitude of the terms involved %.3g)'
                             % (what, i, j, n, cfg, xname, _fmt(a[c, i, j]), yname, _fmt(b[c, i, j]), len(bad), a.size, float(np.max(m))))
@@ -290,7 +315,7 @@ def check_equal(X, Y, what, xname='result', yname='expected', rtol=1e-9, vtol=1e
         a = z if a is None else a
         b = z if b is None else b
         m = X.gmag.get(k, 0.0) + Y.gmag.get(k, 0.0)
-        tol = rtol * m + 1e-300
+        tol = rtol * m + ATOL * lay.get('gfloor', {}).get(k, 0.0) * amp + 1e-300
         dev = np.abs(a - b)
         bad = np.argwhere(~(dev <= tol[None, :, :] if np.ndim(tol) else dev <= tol))
         if len(bad):
